@@ -53,6 +53,113 @@ impl Out {
     }
 }
 
+/// STRUCTURED payloads, as real users make them (uniform random bytes almost never look like these): URLs, e-mail,
+/// phone numbers, dates and times, vCards, Wi-Fi strings, long runs of one character, decimal numbers with many
+/// zeros, repeated blocks, round lengths.
+pub fn structured(rng: &mut Rng) -> Vec<u8> {
+    const ROUND: &[usize] = &[7, 8, 10, 15, 16, 17, 20, 24, 25, 30, 32, 40, 48, 50, 60, 64, 70, 80, 96, 100, 120, 127, 128, 150, 200,
+        250, 255, 256, 300, 400, 500, 512, 600, 800, 1000, 1024, 1200, 1500, 2000, 2048, 2500, 2953, 3000, 3500, 4000, 4296, 5000, 6000, 7000, 7089];
+    const WORDS: &[&str] = &["example", "com", "org", "item", "order", "ticket", "user", "john.doe", "id", "ref", "shop", "a", "index.html", "q"];
+    let n = |rng: &mut Rng, lo: usize, span: usize| -> String { let k = lo + rng.below(span.max(1)); (0..k).map(|_| (b'0' + rng.below(10) as u8) as char).collect() };
+    let s: String = match rng.below(16) {
+        0 => format!("https://{}.{}/{}/{}", rng.pick(WORDS), rng.pick(WORDS), rng.pick(WORDS), n(rng, 1, 6)),
+        1 => format!("https://www.example.com/{}?{}={}&{}={}", rng.pick(WORDS), rng.pick(WORDS), n(rng, 1, 4), rng.pick(WORDS), n(rng, 1, 4)),
+        2 => format!("HTTP://{}.COM/{}", rng.pick(WORDS).to_uppercase(), n(rng, 0, 8)),
+        3 => format!("mailto:{}@{}.{}", rng.pick(WORDS), rng.pick(WORDS), rng.pick(WORDS)),
+        4 => if rng.chance(1, 2) { format!("tel:+{}", n(rng, 8, 6)) } else { format!("+{}-{}-{}-{}", n(rng, 1, 1), n(rng, 3, 1), n(rng, 3, 1), n(rng, 4, 1)) },
+        5 => match rng.below(5) {
+            0 => format!("20{:02}{:02}{:02}", rng.below(40), 1 + rng.below(12), 1 + rng.below(28)),
+            1 => format!("20{:02}-{:02}-{:02}", rng.below(40), 1 + rng.below(12), 1 + rng.below(28)),
+            2 => format!("20{:02}:{:02}:{:02}:{:02}:{:02}:{:02}", rng.below(40), 1 + rng.below(12), 1 + rng.below(28), rng.below(24), rng.below(60), rng.below(60)),
+            3 => format!("{:02}:{:02}:{:02}", rng.below(24), rng.below(60), rng.below(60)),
+            _ => format!("{:02}:{:02}:{:02}:{:02}:{:02}:{:02}", rng.below(100), rng.below(100), rng.below(100), rng.below(100), rng.below(100), rng.below(100)),
+        },
+        6 => format!("BEGIN:VCARD\nVERSION:3.0\nN:Doe;John;;;\nFN:John Doe\nTEL;TYPE=CELL:+{}\nEMAIL:{}@example.com\nEND:VCARD", n(rng, 11, 1), rng.pick(WORDS)),
+        7 => format!("WIFI:T:WPA;S:{};P:{};;", rng.pick(WORDS), n(rng, 8, 8)),
+        8 | 9 => {
+            // a long run of one character, of a round length
+            let c = *rng.pick(&["0", "1", "9", "A", "Z", "a", " ", ":", "$", "%", "\u{0}", "\u{e9}"]);
+            c.repeat(*rng.pick(ROUND) / c.len().max(1))
+        }
+        10 => match rng.below(4) {
+            0 => format!("1{}", "0".repeat(rng.below(40))),
+            1 => format!("{}{}", "0".repeat(1 + rng.below(30)), n(rng, 1, 3)),
+            2 => format!("{}0{}", n(rng, 0, 9), n(rng, 1, 1)),
+            _ => format!("{}.{}", n(rng, 1, 6), "0".repeat(rng.below(8))),
+        },
+        11 | 12 => {
+            // a block repeated up to a round length
+            let k = 1 + rng.below(17);
+            let md = rng.below(3);
+            let block = content(rng, if md == 2 { 1 } else { md }, k);
+            let total = *rng.pick(ROUND);
+            let mut v = Vec::new();
+            while v.len() + block.len() <= total.max(block.len()) {
+                v.extend_from_slice(&block);
+            }
+            return v;
+        }
+        13 => {
+            // random content of a round length in one alphabet
+            let md = rng.below(3);
+            let l = *rng.pick(ROUND);
+            return content(rng, md, l);
+        }
+        14 => format!("{} #{:05}", rng.pick(WORDS), rng.below(100000)),
+        _ => format!("{}/{}", rng.pick(WORDS), n(rng, 2, 4)),
+    };
+    s.into_bytes()
+}
+
+/// the structured stream of a property (mostly default options: that is how such payloads are built)
+fn gen_structured(out: &mut Out, rng: &mut Rng, thorough: bool, prop: &str) {
+    let n = if thorough { 1500 } else { 150 };
+    for k in 0..n {
+        let inp = structured(rng);
+        let o = Opts {
+            ecl: if rng.chance(1, 2) { None } else { Some(rng.below(4)) },
+            mode: None,
+            version: None,
+            mask: if rng.chance(4, 5) { None } else { Some(rng.below(8)) },
+        };
+        match prop {
+            "C01" | "C02" | "C03" | "C04" | "C06" | "C07" | "C10" | "C15" => out.job(move || build_line(&inp, o)),
+            "C09" => {
+                if inp.len() <= 2900 {
+                    out.job(move || classify_line(&inp))
+                }
+            }
+            "C11" => {
+                // the recorder needs the resolved (level, mode, version)
+                if let Outcome::Ok(q) = build(&inp, Opts { mask: Some(0), ..o }) {
+                    if let (Some(e), Some(md), Some(v)) = (q.ecl.map(ecl_ix), q.mode.map(mode_ix), q.version.map(|v| v as usize)) {
+                        if v < 20 || k % 8 == 0 {
+                            out.job(move || select_line(&inp, e, md, v, None));
+                        }
+                    }
+                }
+            }
+            "C14" => {
+                if inp.len() < 600 {
+                    let ops = vec![crate::histops::HOp::Build, crate::histops::HOp::Build, crate::histops::HOp::Term, crate::histops::HOp::Build];
+                    out.job(move || crate::histops::hist_line(&inp, &ops));
+                }
+            }
+            "C16" => {
+                if inp.len() < 1200 {
+                    out.job(move || term_line(&inp, o))
+                }
+            }
+            "C17" => {
+                if let Ok(sx) = String::from_utf8(inp) {
+                    out.job(move || crate::wasmops::wasmqr_line(&sx))
+                }
+            }
+            _ => {}
+        }
+    }
+}
+
 pub fn run(prop: &str, tier: &str, seed: u64, outfile: &str) {
     let mut out = Out { jobs: Vec::new() };
     let mut rng = Rng::new(seed);
@@ -90,6 +197,7 @@ pub fn run(prop: &str, tier: &str, seed: u64, outfile: &str) {
             std::process::exit(2);
         }
     }
+    gen_structured(&mut out, &mut rng, thorough, prop);
     let n = out.finish(outfile);
     println!("cases={}", n);
 }
